@@ -503,6 +503,16 @@ func (c11) Check(c *core.Case, env *core.Env, res zzsim.Result, v *core.Verdict)
 		early := EarlyReplies(conns[0])
 		env.ProbeN("reply-read-before-send-returned", early)
 		// "a reply that arrives before the send operation has even returned
+		// is still delivered to its caller" - whatever happens to the
+		// connection afterwards
+		for key := range EarlyReplyKeys(conns[0]) {
+			for _, h := range hs {
+				if h.Arg == key && (h.Kind == "echo" || h.Kind == "slow" || h.Kind == "late-echo") && h.Ret != 0 && !h.OK {
+					bad("early-reply-lost", "%s: the reply of %s had been read by the client's endpoint before its Send returned, yet the call failed", where, h)
+				}
+			}
+		}
+		// "a reply that arrives before the send operation has even returned
 		// is still delivered to its caller": with no fault every call succeeded
 		// (checked above), so the early ones were delivered
 		if early > 0 && fired == 0 {
